@@ -38,7 +38,14 @@ pub fn assert_c07(c: &Phys, ev: &Eval, ctx: &mut Ctx) -> Result<(), Failure> {
             fail!("sector-formula", "edge {e} (removed {k}-th in order {:?}): logged unrescaled parameter {:e} but prod_j xi_j^(1/omega(g_j)) = {want:e} (rel {r:e}); logged {x0:?} for {c:?}", ev.path.order, x0[e]);
         }
     }
-    // tropical polynomials at the unrescaled parameters
+    // tropical polynomials at the unrescaled parameters (only where no monomial leaves the normal f64 range:
+    // subnormal parameters carry only a few significant bits)
+    let lnx = &ev.path.lnx0;
+    let lowest = lnx.iter().cloned().fold(0.0f64, f64::min);
+    if lowest < -650.0 || lowest * (ev.nl as f64 + 1.0) < -650.0 || ev.sym.ln_u_trop(lnx) < -650.0 || ev.sym.ln_f_trop(lnx) < -650.0 {
+        ctx.label("excluded:monomials-leave-normal-range");
+        return Ok(());
+    }
     let (ut, vt) = (ev.sym.u_trop(x0), ev.sym.v_trop(x0));
     if !(ut > 0.0 && vt > 0.0 && ut.is_finite() && vt.is_finite()) {
         ctx.label("excluded:tropical-polynomials-underflow");
